@@ -1,2 +1,52 @@
-From Sup Require Import Node NodeSpec.
-Theorem placeholder16 : True. Proof. exact I. Qed.
+(* C16 (node-level part) — whatever sequence of ticks, peer publications, handshake notifications and requests an
+   instance receives, handling it never raises an internal error. Property-level theorems only; proofs in
+   proofs/NodeFsmProofs.v.
+
+   Reading guide.
+   * [WF n] : the local instance is known; instance_states mirrors the instance statuses; instance_state_modes has
+     the same keys; every known instance has a nick identifier.
+   * [wf_event n e] : every event, except (a) restart / shutdown requests while no Master is known (documented
+     error), (b) an ALL_INFO failure notice for a CHECKED / RUNNING instance (c16_crash_excused), (c) end_sync
+     without a Master name when no candidate exists ([endsync_ok]; never the case when the local instance is RUNNING).
+   * [Crash OutOfFuel] : the set_state loop did not settle within loop_fuel transitions (termination is not proved). *)
+From Sup Require Import Node NodeSpec NodeFsmProofs.
+
+Theorem C16_node_no_crash_partial : forall n e, WF n -> wf_event n e = true ->
+  match step n e with Ok (n', _) => WF n' | Crash k => k = OutOfFuel end.
+Proof. exact node_no_crash_partial. Qed.
+
+Theorem C16_run_no_crash : forall evs n, WF n -> wf_hist n evs ->
+  forall k, In (NCrash k) (run n evs) -> k = OutOfFuel.
+Proof. exact run_no_crash. Qed.
+
+(* every history: an exception is excused by c16_crash_excused (or the fuel is exhausted) *)
+Theorem C16_run_no_crash_spec : forall n evs, WF n -> endsync_hist n evs ->
+  nspec_ok fl_c16 (n, evs, run n evs) = true \/ In (NCrash OutOfFuel) (run n evs).
+Proof. exact run_no_crash_spec. Qed.
+
+(* the excluded events do raise: wf_event is necessary *)
+Theorem C16_not_wf_crashes : forall n e, WF n -> wf_event n e = false -> exists k, step n e = Crash k.
+Proof. exact not_wf_crashes. Qed.
+
+Theorem C16_wf_event_of_not_excused : forall n e,
+  c16_crash_excused e (scode (fsm_state n)) (init_ist n) = false ->
+  (forall m now orcs, e = ReqEndSync m now orcs -> endsync_ok n m = true) -> wf_event n e = true.
+Proof. exact wf_event_of_not_excused. Qed.
+
+Theorem C16_endsync_ok_local : forall n m, WF n -> local_running n = true -> endsync_ok n m = true.
+Proof. exact endsync_ok_local. Qed.
+
+Theorem C16_step_preserves_WF : forall n e n' outs, WF n -> step n e = Ok (n', outs) -> WF n'.
+Proof. exact step_WF. Qed.
+
+(* ---- the carve-out is real for inconsistent options (TIMEOUT with a strategy other than CONTINUE is
+   excluded by SupvisorsOptions.check_options): the set_state loop then does not terminate ----
+   STRICT + TIMEOUT synchronization options, RESYNC failure strategy, one STRICT instance missing, synchro timeout
+   elapsed: SYNCHRONIZATION -> ELECTION (timeout) -> SYNCHRONIZATION (strict failure, RESYNC) -> ... for ever *)
+Theorem C16_set_state_loops_on_inconsistent_options :
+  exists n next orcs now, WF n /\ forall fuel acc, set_state fuel n next orcs now acc = Crash OutOfFuel.
+Proof. exact set_state_loops_on_inconsistent_options. Qed.
+
+Theorem C16_run_out_of_fuel_reachable : exists n evs, WF n /\ wf_hist n evs /\ evD_hist n evs /\
+  In (NCrash OutOfFuel) (run n evs).
+Proof. exact run_out_of_fuel_reachable. Qed.
